@@ -4,16 +4,19 @@
 <old> must occur exactly once in the file (or use count with @N suffix: 'old@2' = 2nd occurrence)."""
 import json, os, subprocess, sys, tempfile
 i = sys.argv.index("--")
-rel, old, new = sys.argv[1:4]
+rel = sys.argv[1]
+pairs = sys.argv[2:i]
 cmd = sys.argv[i + 1:]
-src = open(os.path.join("/repo", rel)).read()
-nth = 1
-if "@" in old and old.rsplit("@", 1)[1].isdigit():
-    old, n = old.rsplit("@", 1); nth = int(n)
-parts = src.split(old)
-if len(parts) - 1 < nth or (nth == 1 and len(parts) != 2 and "@" not in sys.argv[2]):
-    sys.exit("pattern occurs %d times" % (len(parts) - 1))
-mut = old.join(parts[:nth]) + new + old.join(parts[nth:])
+mut = open(os.path.join("/repo", rel)).read()
+for k in range(0, len(pairs), 2):  # several <old> <new> pairs may be given
+    old, new = pairs[k], pairs[k + 1]
+    nth, explicit = 1, False
+    if "@" in old and old.rsplit("@", 1)[1].isdigit():
+        old, n = old.rsplit("@", 1); nth = int(n); explicit = True
+    parts = mut.split(old)
+    if len(parts) - 1 < nth or (not explicit and len(parts) != 2):
+        sys.exit("pattern %r occurs %d times" % (old, len(parts) - 1))
+    mut = old.join(parts[:nth]) + new + old.join(parts[nth:])
 d = tempfile.mkdtemp(prefix="mut-")
 f = os.path.join(d, os.path.basename(rel))
 open(f, "w").write(mut)
